@@ -10,6 +10,7 @@
 use super::*;
 use crate::variant::*;
 
+#[cfg_attr(feature = "hsivonen_encoding_rs_verif", derive(Debug, Clone, PartialEq, Eq, Hash))]
 pub struct ReplacementDecoder {
     emitted: bool,
 }
